@@ -30,7 +30,7 @@ def usage_level(ck, eng, pop):
     cases = []
     for label, shape in valid_shapes(pop):
         perms = dc.permutations_of(ck.rng, shape, 2)
-        for p in perms[:2]:
+        for p in perms[:(2 if quick or len(shape) <= 3 else 1)]:
             cases.append((label, shape, dc.apply_perm(shape, p)))
     real = eng.map(dc.dag_case, [dc.render(c[2]) for c in cases], chunk=64)
     reqs, keep = [], []
@@ -70,7 +70,7 @@ def trace_level(ck, eng, pop):
     pick = []
     for label, shapes in pop.items():
         if label.startswith('general'): continue
-        k = {'acyclic_exhaustive_n<=3': 150 if quick else 1200}.get(label, 80 if quick else 900)
+        k = {'acyclic_exhaustive_n<=3': 60 if quick else 400}.get(label, 30 if quick else 250)
         pick += [(label, s) for s in rng.sample(shapes, min(k, len(shapes)))]
     jobs = []
     for label, shape in pick:
